@@ -26,6 +26,7 @@ from .base import HTMLHandlerBase, RequestHandlerBase, TemplateContext
 from .csrf import CsrfTokenCollection
 from .decorators import (
     jwt_login_required,
+    rejects_malformed_payload,
     csrf_token_required,
     current_mps,
     login_required,
@@ -220,6 +221,7 @@ class AddStream(HTMLHandlerBase):
 
     @jwt_required()
     @csrf_token_required('streams')
+    @rejects_malformed_payload
     def put(self) -> flask.Response:
         data: MultiPeriodStreamData = cast(
             MultiPeriodStreamData, flask.request.get_json())
@@ -271,6 +273,7 @@ class ValidateStream(RequestHandlerBase):
         jwt_required()
     ]
 
+    @rejects_malformed_payload
     def post(self) -> flask.Response:
         errors = models.MultiPeriodStream.validate_values(**flask.request.json)
         return jsonify({
@@ -313,6 +316,7 @@ class EditStream(HTMLHandlerBase):
 
     @jwt_login_required(permission=models.Group.MEDIA)
     @csrf_token_required('streams')
+    @rejects_malformed_payload
     def post(self, mps_name: str) -> flask.Response:
         data = flask.request.json
         if not data:
